@@ -1522,6 +1522,7 @@ func (p *Parser) parseHaving(stmt *SelectStatement) error {
 	iterations := 0
 
 	var conditions []string
+	inOrderBy := false
 	for {
 		iterations++
 		// 安全检查：防止无限循环
@@ -1532,6 +1533,15 @@ func (p *Parser) parseHaving(stmt *SelectStatement) error {
 		tok := p.lexer.NextToken()
 		if tok.Type == TokenLIMIT || tok.Type == TokenEOF || tok.Type == TokenWITH {
 			break
+		}
+		// ORDER BY ends the HAVING condition. Its key list is parsed by parseOrderBy with a
+		// lexer of its own; here the tokens are consumed (so that a following WITH/LIMIT is
+		// still seen) but they are not part of the condition.
+		if tok.Type == TokenOrder {
+			inOrderBy = true
+		}
+		if inOrderBy {
+			continue
 		}
 
 		switch tok.Type {
